@@ -82,7 +82,7 @@ TESTED_NOT_PROVED = ["inputs are not modified (pure model; the adapter deep-comp
                      "call spellings that do not reach the model (instance vs class, host/pattern by keyword, tuples for attribute lists)",
                      "the VF2 contract for inputs that were not run (premise of the theorems; discharged inside Coq for every case that "
                      "is run, see TRUSTED_BASE)"]
-LEVEL_TEXT = ("Machine-checked proof (Coq, all inputs, 57 theorems closed under the global context) over an executable, "
+LEVEL_TEXT = ("Machine-checked proof (Coq, all inputs, 58 theorems closed under the global context) over an executable, "
               "structure-following model of SubgraphSearchEngine.find_subgraph_mappings parameterised by the VF2 enumeration: "
               "ALL = exactly the label-preserving monomorphisms, duplicate-free (under the VF2 contract, which the verified enumerator "
               "provably meets); COMPONENT = exactly those sending different pattern components into different host components, duplicate-free, all of "
